@@ -11367,3 +11367,350 @@ func ruleQueueConsumed(c *Ctx) {
 	}
 	c.Floor("block queues the server's own methods put into", len(qs), 2)
 }
+
+// ---------------------------------------------------------------------------
+// round 8
+
+// ruleClearKeepsAliases (C12): Value() of a compound stack item hands out the slice the item holds, not a copy, and
+// CLEARITEMS relies on it: it takes the elements with Value(), calls Clear(), and then releases the references of what
+// it took. A Clear() that wipes the backing array (the usual GC-friendly clear(s); s = s[:0]) turns those elements into
+// nil before the VM has released them: Remove(nil) un-counts one reference and leaves a nested compound's own elements
+// counted for ever. Either no Clear method of the compound items zeroes the receiver's slice, or every arm of execute
+// that reads a Value() slice after Clear() took a copy of it.
+func ruleClearKeepsAliases(c *Ctx) {
+	pk := c.P.Pkg("pkg/vm/stackitem")
+	if pk == nil {
+		return
+	}
+	info := pk.TypesInfo
+	wipes := ""
+	nclear := 0
+	for _, fd := range c.P.AllFuncDecls() {
+		if fd.Pkg != pk || fd.Decl.Body == nil || fd.Decl.Recv == nil || fd.Decl.Name.Name != "Clear" || len(fd.Decl.Recv.List[0].Names) == 0 {
+			continue
+		}
+		nclear++
+		recv := info.ObjectOf(fd.Decl.Recv.List[0].Names[0])
+		ast.Inspect(fd.Decl.Body, func(x ast.Node) bool {
+			switch y := x.(type) {
+			case *ast.CallExpr:
+				if id, ok := y.Fun.(*ast.Ident); ok && id.Name == "clear" && len(y.Args) == 1 {
+					if _, isB := info.ObjectOf(id).(*types.Builtin); isB && rootObj(info, y.Args[0]) == recv {
+						wipes = FuncKey(fd.Obj)
+					}
+				}
+			case *ast.AssignStmt:
+				// i.value[k] = nil in a loop
+				for _, l := range y.Lhs {
+					if ix, ok := ast.Unparen(l).(*ast.IndexExpr); ok && rootObj(info, ix.X) == recv {
+						wipes = FuncKey(fd.Obj)
+					}
+				}
+			}
+			return true
+		})
+	}
+	c.Floor("Clear methods of compound stack items", nclear, 3)
+	if wipes == "" {
+		c.OK("clear-keeps-aliases", "pkg/vm/stackitem", "Clear() of the compound items drops the elements without wiping the slice Value() handed out")
+		return
+	}
+	// then the consumer has to copy
+	ex := c.P.Func("pkg/vm", "VM", "execute")
+	bad := ""
+	if ex != nil {
+		f := c.P.NewFuncCFG(ex)
+		ast.Inspect(ex.Decl.Body, func(x ast.Node) bool {
+			cc, ok := x.(*ast.CaseClause)
+			if !ok {
+				return true
+			}
+			var clearPos token.Pos
+			aliases := map[types.Object]bool{}
+			for _, st := range cc.Body {
+				ast.Inspect(st, func(y ast.Node) bool {
+					switch z := y.(type) {
+					case *ast.AssignStmt:
+						for i, r := range z.Rhs {
+							if i < len(z.Lhs) && strings.Contains(types.ExprString(r), ".Value()") && !strings.Contains(types.ExprString(r), "Clone") {
+								if id, ok := z.Lhs[i].(*ast.Ident); ok {
+									aliases[f.Info.ObjectOf(id)] = true
+								}
+							}
+						}
+					case *ast.CallExpr:
+						if se, ok := ast.Unparen(z.Fun).(*ast.SelectorExpr); ok && se.Sel.Name == "Clear" && clearPos == token.NoPos {
+							clearPos = z.Pos()
+						}
+					case *ast.Ident:
+						if clearPos != token.NoPos && z.Pos() > clearPos && aliases[f.Info.ObjectOf(z)] {
+							bad = c.P.Pos(z.Pos())
+						}
+					}
+					return true
+				})
+			}
+			return true
+		})
+	}
+	if bad == "" {
+		c.OK("clear-keeps-aliases", "pkg/vm/stackitem", "Clear() wipes the slice, and execute reads no Value() alias after it")
+	} else {
+		c.Fail("clear-keeps-aliases", "pkg/vm/stackitem", fmt.Sprintf("%s wipes the slice it holds (clear / element-wise nil), and the CLEARITEMS arm of execute still reads the slice it obtained from Value() - the same backing array - after calling Clear() (%s) to release the elements' references: the elements are nil by then, Remove(nil) un-counts one reference each, and everything a nested compound element held stays counted for ever - the 2048-item limit is reached by a script that holds one item", wipes, bad))
+	}
+}
+
+// ruleNarrowingChecked (C12, C13): a big integer from the stack is narrowed to a machine word only behind a test that
+// it fits: big.Int.Uint64()/Int64() return the low bits of a value that does not, so a bound checked on the result
+// lets 2^64+200 through as 200 (POW then raises to the full exponent: the instruction never ends and allocates without
+// bound, its fixed price already paid). Every Uint64()/Int64() call on a *big.Int in package vm has an IsUint64()/
+// IsInt64() call on the same value in the same function, or is tabled with the reason the value is known to fit.
+var narrowingTabled = map[string]string{}
+
+func ruleNarrowingChecked(c *Ctx) {
+	pk := c.P.Pkg("pkg/vm")
+	if pk == nil {
+		return
+	}
+	info := pk.TypesInfo
+	n := 0
+	for _, fd := range c.P.AllFuncDecls() {
+		if fd.Pkg != pk || fd.Decl.Body == nil {
+			continue
+		}
+		type use struct {
+			obj types.Object
+			pos token.Pos
+			m   string
+		}
+		var narrow []use
+		checked := map[types.Object]map[string]bool{}
+		ast.Inspect(fd.Decl.Body, func(x ast.Node) bool {
+			call, ok := x.(*ast.CallExpr)
+			if !ok || len(call.Args) != 0 {
+				return true
+			}
+			se, ok := ast.Unparen(call.Fun).(*ast.SelectorExpr)
+			if !ok {
+				return true
+			}
+			t := info.TypeOf(se.X)
+			if t == nil || types.TypeString(t, nil) != "*math/big.Int" {
+				return true
+			}
+			o := rootObj(info, se.X)
+			switch se.Sel.Name {
+			case "Uint64", "Int64":
+				narrow = append(narrow, use{o, call.Pos(), se.Sel.Name})
+			case "IsUint64", "IsInt64":
+				if checked[o] == nil {
+					checked[o] = map[string]bool{}
+				}
+				checked[o][strings.TrimPrefix(se.Sel.Name, "Is")] = true
+			}
+			return true
+		})
+		for i, u := range narrow {
+			n++
+			key := fmt.Sprintf("narrowing-checked.%s#%d", shortSym(FuncKey(fd.Obj)), i+1)
+			switch {
+			case u.obj != nil && checked[u.obj][u.m]:
+				c.OK(key, c.P.Pos(u.pos), "the value is tested to fit before its low bits are taken")
+			case narrowingTabled[FuncKey(fd.Obj)] != "":
+				c.OK(key, c.P.Pos(u.pos), "tabled: "+narrowingTabled[FuncKey(fd.Obj)])
+			default:
+				c.Fail(key, c.P.Pos(u.pos), fmt.Sprintf("%s takes %s() of a big integer it never asked Is%s(): for a value that does not fit the call returns the low 64 bits, so a bound checked on the result accepts 2^64+200 as 200 - and what is then done with the full value (POW: an exponentiation that never finishes and allocates until the process dies, its fixed price already charged) is not what the bound allowed", FuncKey(fd.Obj), u.m, u.m))
+			}
+		}
+	}
+	c.Floor("narrowings of big integers in package vm", n, 2)
+}
+
+// ruleRangeBeforeShortcut (C13): an operation on the top n items of the stack faults when the stack does not hold n
+// items - whatever n is: the comparison with the depth comes before the shortcut for the values of n that need no work
+// (REVERSEN with n = 1 over an empty stack faults). In the if/else-if chains of the Stack methods that take a count,
+// no arm that returns success under a condition on the count alone stands before the arm that compares the count with
+// the length.
+func ruleRangeBeforeShortcut(c *Ctx) {
+	pk := c.P.Pkg("pkg/vm")
+	if pk == nil {
+		return
+	}
+	info := pk.TypesInfo
+	n := 0
+	for _, fd := range c.P.AllFuncDecls() {
+		if fd.Pkg != pk || fd.Decl.Body == nil || fd.Decl.Recv == nil || fd.Decl.Type.Params == nil {
+			continue
+		}
+		if !namedTypeIs(fd.Obj.Type().(*types.Signature).Recv().Type(), "pkg/vm", "Stack") {
+			continue
+		}
+		var cnt types.Object
+		for _, fl := range fd.Decl.Type.Params.List {
+			for _, nm := range fl.Names {
+				if b, ok := info.TypeOf(fl.Type).Underlying().(*types.Basic); ok && b.Kind() == types.Int {
+					cnt = info.ObjectOf(nm)
+				}
+			}
+		}
+		if cnt == nil {
+			continue
+		}
+		f := c.P.NewFuncCFG(fd)
+		mentionsCnt := func(e ast.Expr) bool {
+			hit := false
+			ast.Inspect(e, func(x ast.Node) bool {
+				if id, ok := x.(*ast.Ident); ok && info.ObjectOf(id) == cnt {
+					hit = true
+				}
+				return true
+			})
+			return hit
+		}
+		mentionsLen := func(e ast.Expr) bool {
+			hit := false
+			ast.Inspect(e, func(x ast.Node) bool {
+				switch y := x.(type) {
+				case *ast.CallExpr:
+					if f.calleeSym(y) == "builtin.len" || strings.HasSuffix(f.calleeSym(y), ".Len") {
+						hit = true
+					}
+				case *ast.Ident:
+					if v, ok := info.ObjectOf(y).(*types.Var); ok && !f.params[v] && len(f.defs[v]) == 1 && len(f.defs[v][0].rhs) == 1 {
+						if call, ok := ast.Unparen(f.defs[v][0].rhs[0]).(*ast.CallExpr); ok && (f.calleeSym(call) == "builtin.len" || strings.HasSuffix(f.calleeSym(call), ".Len")) {
+							hit = true
+						}
+					}
+				}
+				return true
+			})
+			return hit
+		}
+		for _, st := range fd.Decl.Body.List {
+			is, ok := st.(*ast.IfStmt)
+			if !ok {
+				continue
+			}
+			seenRange, rangeExists := false, false
+			for cur := is; cur != nil; {
+				if mentionsCnt(cur.Cond) && mentionsLen(cur.Cond) {
+					rangeExists = true
+				}
+				next, _ := cur.Else.(*ast.IfStmt)
+				cur = next
+			}
+			if !rangeExists {
+				continue
+			}
+			n++
+			bad := token.NoPos
+			for cur := is; cur != nil; {
+				if mentionsCnt(cur.Cond) && mentionsLen(cur.Cond) {
+					seenRange = true
+				} else if !seenRange && mentionsCnt(cur.Cond) && len(cur.Body.List) > 0 {
+					if rs, ok := cur.Body.List[len(cur.Body.List)-1].(*ast.ReturnStmt); ok {
+						success := len(rs.Results) == 0
+						for _, r := range rs.Results {
+							if isNilIdent(info, r) {
+								success = true
+							}
+						}
+						if success {
+							bad = cur.Pos()
+						}
+					}
+				}
+				next, _ := cur.Else.(*ast.IfStmt)
+				cur = next
+			}
+			key := "range-before-shortcut." + shortSym(FuncKey(fd.Obj))
+			if bad == token.NoPos {
+				c.OK(key, c.P.Pos(is.Pos()), "the count is compared with the depth of the stack before any shortcut returns")
+			} else {
+				c.Fail(key, c.P.Pos(bad), fmt.Sprintf("%s returns success for some values of its count before it has compared the count with the depth of the stack: an instruction that names more items than the stack holds has to fault whatever the count is (`PUSH1 REVERSEN` over an empty stack), and here it halts", FuncKey(fd.Obj)))
+			}
+			break
+		}
+	}
+	c.Floor("Stack methods that compare a count with the depth", n, 2)
+}
+
+// ruleIndexBoundExclusive (C13, C12): where execute rejects an index by comparing it with the length of what it is
+// about to index, the comparison rejects the length itself: `index > len(a)` lets index == len(a) through to a[index],
+// a Go runtime panic - an uncatchable fault where the instruction is specified to throw a catchable exception.
+func ruleIndexBoundExclusive(c *Ctx) {
+	fd := c.P.Func("pkg/vm", "VM", "execute")
+	if fd == nil {
+		return
+	}
+	info := fd.Pkg.TypesInfo
+	f := c.P.NewFuncCFG(fd)
+	n := 0
+	flip := map[token.Token]token.Token{token.LSS: token.GTR, token.GTR: token.LSS, token.LEQ: token.GEQ, token.GEQ: token.LEQ}
+	ast.Inspect(fd.Decl.Body, func(x ast.Node) bool {
+		cc, ok := x.(*ast.CaseClause)
+		if !ok {
+			return true
+		}
+		for _, st := range cc.Body {
+			ast.Inspect(st, func(y ast.Node) bool {
+				if _, nested := y.(*ast.CaseClause); nested {
+					return true
+				}
+				be, ok := y.(*ast.BinaryExpr)
+				if !ok {
+					return true
+				}
+				op, ok := be.Op, true
+				var idx, arr ast.Expr
+				isLen := func(e ast.Expr) (ast.Expr, bool) {
+					call, ok := ast.Unparen(e).(*ast.CallExpr)
+					if ok && f.calleeSym(call) == "builtin.len" && len(call.Args) == 1 {
+						return call.Args[0], true
+					}
+					return nil, false
+				}
+				if a, isL := isLen(be.Y); isL {
+					idx, arr = be.X, a
+				} else if a, isL := isLen(be.X); isL {
+					idx, arr = be.Y, a
+					op, ok = flip[op]
+				} else {
+					return true
+				}
+				if !ok || (op != token.GTR && op != token.GEQ) {
+					return true
+				}
+				io := rootObj(info, idx)
+				ao := rootObj(info, arr)
+				if _, isId := ast.Unparen(idx).(*ast.Ident); !isId || io == nil || ao == nil {
+					return true
+				}
+				indexed := false
+				for _, s2 := range cc.Body {
+					ast.Inspect(s2, func(z ast.Node) bool {
+						if ix, ok := z.(*ast.IndexExpr); ok {
+							if id, ok := ast.Unparen(ix.Index).(*ast.Ident); ok && info.ObjectOf(id) == io && rootObj(info, ix.X) == ao {
+								indexed = true
+							}
+						}
+						return true
+					})
+				}
+				if !indexed {
+					return true
+				}
+				n++
+				key := fmt.Sprintf("index-bound-exclusive.%s@%s", enclosingOpcodeArm(c, fd, cc.Pos()), types.ExprString(arr))
+				if op == token.GEQ {
+					c.OK(key, c.P.Pos(be.Pos()), "an index equal to the length is rejected before it is used")
+				} else {
+					c.Fail(key, c.P.Pos(be.Pos()), fmt.Sprintf("the %s arm of execute rejects an index with `%s` and then reads %s[%s]: an index equal to the length passes the test and the read is a Go runtime panic - the script faults without a chance to catch what is specified as a catchable exception", enclosingOpcodeArm(c, fd, cc.Pos()), types.ExprString(be), types.ExprString(arr), types.ExprString(idx)))
+				}
+				return true
+			})
+		}
+		return true
+	})
+	c.Floor("index checks of execute followed by an indexed read", n, 2)
+}
